@@ -1582,6 +1582,10 @@ func (stmt *UpsertIntoStmt) execAt(ctx context.Context, tx *SQLTx, params map[st
 						return nil, err
 					}
 
+					if rval.IsNull() && col.notNull {
+						return nil, fmt.Errorf("%w (%s)", ErrNotNullableColumnCannotBeNull, col.colName)
+					}
+
 					valuesByColID[col.id] = rval
 
 					// update row representation for check constraints
@@ -2079,6 +2083,10 @@ func (stmt *UpdateStmt) execAt(ctx context.Context, tx *SQLTx, params map[string
 			err = rval.requiresType(col.colType, cols, nil, table.name)
 			if err != nil {
 				return nil, err
+			}
+
+			if rval.IsNull() && col.notNull {
+				return nil, fmt.Errorf("%w (%s)", ErrNotNullableColumnCannotBeNull, col.colName)
 			}
 
 			valuesByColID[col.id] = rval
